@@ -232,7 +232,9 @@ theorem responseAnnounce_peers (M : StoreModel σ) (now : Int) (m : σ) (hg : M.
   · simp only [Except.ok.injEq, Prod.mk.injEq] at h
     obtain ⟨_, rfl⟩ := h
     exact ⟨by simp [h4], by simp [h6]⟩
-  · simp only [Except.ok.injEq, Prod.mk.injEq] at h
+  · split at h
+    · cases h
+    simp only [Except.ok.injEq, Prod.mk.injEq] at h
     obtain ⟨_, rfl⟩ := h
     have hout : ∀ q ∈ ((M.ops now).announcePeers m req.infoHash (decide (req.left = 0)) req.numWant req.peer).getD [], q.ip.length = famLen req.peer.fam := by
       cases ha : (M.ops now).announcePeers m req.infoHash (decide (req.left = 0)) req.numWant req.peer with
@@ -276,6 +278,8 @@ theorem good_swarmInteraction (M : StoreModel σ) (now : Int) (m : σ) (hg : M.G
   split
   · exact hg
   · split
+    · exact hg
+    split
     · exact M.deleteLeecher now _ _ _ (M.deleteSeeder now m _ _ hg hreq) hreq
     · exact M.graduate now m _ _ hg hreq
     · split
